@@ -21,6 +21,7 @@ import (
 	"time"
 
 	"foxverif/hist"
+	"foxverif/conc"
 	"foxverif/kit"
 
 	"github.com/tigerwill90/fox"
@@ -427,6 +428,7 @@ func concurrent(run *kit.Run) {
 	run.Count("concurrent_single_snapshot_reads", reads.Load())
 	run.Count("concurrent_torn_reads", torn.Load())
 	allowFlip(run)
+	conc.MethodFlip(run)
 }
 
 // allowFlip: one request is served from one routing state. Transactions flip the methods registered for a path
